@@ -387,6 +387,10 @@ pub struct Sim {
     pub queues: Vec<VecDeque<Fwd>>,
     /// frames emitted by the last call: (port, is_event, bytes)
     pub last_frames: Vec<(usize, bool, Vec<u8>)>,
+    /// timer resets requested by the last call: (port, kind 0=announce 1=sync 2=delay-request 3=announce-receipt 4=filter-update, ns)
+    pub last_resets: Vec<(usize, u8, u128)>,
+    /// timer resets requested when the ports were created
+    pub init_resets: Vec<(usize, u8, u128)>,
     /// printable events executed so far and their results
     pub events: Vec<String>,
     pub results: Vec<String>,
@@ -530,6 +534,8 @@ pub enum Ev {
     Bmca,
     SetClockQuality((u8, u8, u16)),
     SetSlaveOnly(bool),
+    /// host-side passage of time (no call into the library)
+    Tick(u64),
 }
 
 impl Sim {
@@ -558,6 +564,8 @@ impl Sim {
             pending: (0..n).map(|_| Vec::new()).collect(),
             queues: (0..n).map(|_| VecDeque::new()).collect(),
             last_frames: Vec::new(),
+            last_resets: Vec::new(),
+            init_resets: Vec::new(),
             events: Vec::new(),
             results: Vec::new(),
             init: None,
@@ -615,6 +623,11 @@ impl Sim {
         take_log();
         match res {
             Some((ports, out)) => {
+                for (tag, text) in &out {
+                    if let Some(rest) = text.strip_prefix("AResetAnnounceReceiptTimer ") {
+                        sim.init_resets.push((*tag as usize, 3, rest.trim().parse::<u128>().unwrap()));
+                    }
+                }
                 sim.ports = ports;
                 sim.init = Some(format!("(Some {})", tobs_list(&out)));
             }
@@ -692,6 +705,7 @@ impl Sim {
         let mut new_pending: Vec<(usize, Pending)> = Vec::new();
         let mut new_fwd: Vec<(usize, Fwd)> = Vec::new();
         let mut frames: Vec<(usize, bool, Vec<u8>)> = Vec::new();
+        let mut resets: Vec<(usize, u8, u128)> = Vec::new();
 
         // printable form of the event (needs sim state for contexts and queues)
         let ev_coq = match &ev {
@@ -723,6 +737,7 @@ impl Sim {
                 q.2
             ),
             Ev::SetSlaveOnly(b) => format!("EvSetSlaveOnly {}", coq_bool(*b)),
+            Ev::Tick(ns) => format!("EvTick {}", ns),
         };
         self.events.push(ev_coq);
         self.evlog.push(ev.clone());
@@ -793,6 +808,7 @@ impl Sim {
                         instance.set_slave_only(b);
                         flush_side(out_ref);
                     }
+                    Ev::Tick(_) => {}
                 }
             })
             .is_some()
@@ -818,7 +834,22 @@ impl Sim {
                 }
             }
         }
+        for (tag, text) in &out {
+            let kinds = [
+                ("AResetAnnounceTimer ", 0u8),
+                ("AResetSyncTimer ", 1),
+                ("AResetDelayRequestTimer ", 2),
+                ("AResetAnnounceReceiptTimer ", 3),
+                ("AResetFilterUpdateTimer ", 4),
+            ];
+            for (prefix, k) in kinds {
+                if let Some(rest) = text.strip_prefix(prefix) {
+                    resets.push((*tag as usize, k, rest.trim().parse::<u128>().unwrap()));
+                }
+            }
+        }
         self.last_frames = frames;
+        self.last_resets = resets;
         let snap = self.snapshot();
         self.results.push(format!("SROk {} {}", tobs_list(&out), snap));
         true
